@@ -62,13 +62,17 @@ def rebuild(schema_text, members, order=None, extra=()):
     return buf.getvalue()
 
 
-def npz_semantic(rng, content):
+NPZ_KINDS = ["indices-huge", "indices-negative", "indptr-broken", "shape-small", "shape-huge", "data-short", "format", "dtype", "drop-key", "offsets"]
+NPY_KINDS = ["shape-bigger", "fortran", "dtype", "object-pickle", "empty", "huge-shape", "structured"]
+
+
+def npz_semantic(rng, content, k=None):
     """a well-formed .npz (valid zip, valid .npy entries, valid CRCs) whose arrays are inconsistent with one another"""
     import numpy as np
 
     with np.load(io.BytesIO(content), allow_pickle=False) as z:
         arrs = {k: z[k] for k in z.files}
-    k = rng.choice(["indices-huge", "indices-negative", "indptr-broken", "shape-small", "shape-huge", "data-short", "format", "dtype", "drop-key", "offsets"])
+    k = k or rng.choice(NPZ_KINDS)
     if k == "indices-huge" and "indices" in arrs:
         arrs["indices"] = arrs["indices"] + rng.choice([10**6, 2**31 - 2, 10**12])
     elif k == "indices-negative" and "indices" in arrs:
@@ -103,12 +107,12 @@ def npz_semantic(rng, content):
     return buf.getvalue(), k
 
 
-def npy_semantic(rng, content):
+def npy_semantic(rng, content, k=None):
     """a .npy member with a well-formed header that lies about its data"""
     import numpy as np
 
     a = np.load(io.BytesIO(content), allow_pickle=False)
-    k = rng.choice(["shape-bigger", "fortran", "dtype", "object-pickle", "empty", "huge-shape", "structured"])
+    k = k or rng.choice(NPY_KINDS)
     buf = io.BytesIO()
     if k in ("shape-bigger", "huge-shape"):
         np.save(buf, a)
@@ -300,6 +304,40 @@ def mutate_schema(rng, schema, members):
         return ioarch.make_zip(schema, members), "schema:none"
 
 
+def targeted(rng, bases, per_base_limit):
+    """systematic stacks: every semantic corruption of a binary member x the node that refers to it renamed to every other
+    name its loader trusts by default (so that the audit passes and construct meets data it was not made for)"""
+    out = []
+    for name, data, schema, members in bases:
+        states = [(st, path) for st, path in all_states(copy.deepcopy(schema)) if isinstance(st.get("file"), str) and st["file"] in members]
+        combos = []
+        for st, path in states:
+            ext = st["file"].rsplit(".", 1)[-1]
+            kinds = NPZ_KINDS if ext == "npz" else NPY_KINDS if ext == "npy" else []
+            swaps = [None] + TRUSTED_BY_LOADER().get(str(st.get("__loader__")), [])
+            for k in kinds:
+                for sw in swaps:
+                    combos.append((path, st["file"], ext, k, sw))
+        rng.shuffle(combos)
+        for path, fname, ext, k, sw in combos[:per_base_limit]:
+            s2 = copy.deepcopy(schema)
+            m2 = dict(members)
+            try:
+                m2[fname], _ = (npz_semantic if ext == "npz" else npy_semantic)(rng, members[fname], k)
+            except Exception:
+                continue
+            node = s2
+            for key in path:
+                node = node[key]
+            if sw:
+                node["__module__"], _, node["__class__"] = sw.rpartition(".")
+            try:
+                out.append((ioarch.make_zip(s2, m2), dict(base=name, mutations=[f"members:{ext}-semantic:{k}"] + ([f"schema:swap-trusted-class:{sw}"] if sw else []))))
+            except Exception:
+                pass
+    return out
+
+
 def evil_archive(n, proto, version):
     inner = {"__class__": "int", "__module__": "builtins", "__loader__": "JsonNode", "content": "1", "is_json": True, "__id__": 1000}
     for i in range(n):
@@ -403,6 +441,12 @@ def run(ctx):
                 continue
         batch.append(data)
         meta.append(dict(base=name, mutations=tags))
+    seen_bases = {}
+    for b in bases:
+        seen_bases.setdefault(b[0], b)
+    for data, m in targeted(r, [b for b in seen_bases.values() if b[3]], ctx.budget(60, 100000)):
+        batch.append(data)
+        meta.append(m)
     limit = 20.0
     results = fuzzworker.run_parallel(batch, limit=limit, workers=16)
     hist, kinds, depth_hist = {}, {}, {}
